@@ -85,6 +85,36 @@ let check_load (b : block) : verdict list =
           add (Diff ("file-maxvar", "number_of_variables is not max(n, d4_maxvar)"))
         | _ -> ())
      | _ -> ());
+    (* d4_conform (Spec/D4Conform.v): theorem C01_d4_loader_wf says that a conforming file that
+       loads gives a vector accepted by check_wf; a counterexample is a contradiction of the
+       theorem (bug in the model, the spec or the harness), never to be suppressed *)
+    (match Mdl.LoadD4.lex_lines_d4 clines with
+     | Some toks when not big_ids ->
+       let info = match find b "info" with Some t -> String.concat " " t | None -> "" in
+       let has sub = let n = String.length sub and m = String.length info in
+         let rec go i = i + n <= m && (String.sub info i n = sub || go (i + 1)) in go 0 in
+       let cls =
+         if has "dead and-chain" then "deadchain" else if has "multiway" then "multiway"
+         else if has "root idiom" then "rootidiom" else if has "trivial components" then "trivial"
+         else if has "special" then "special" else if has "random dag" then "randomdag"
+         else if has "corpus" then "corpus"
+         else if String.length b.id >= 8 && String.sub b.id 0 8 = "ld4-hand" then "hand" else "plain" in
+       if Mdl.D4Conform.d4_conform toks cn then begin
+         bump ("conform_yes_" ^ cls);
+         (match impl b "panic" with
+          | Some _ -> bump "conform_but_panic"
+          | None ->
+            let wf = Model.check_wf b.circuit (Conv.nat_of_int (match impl b "nvars" with Some [nv] -> int_of_string nv | _ -> n)) in
+            if wf then bump "conform_and_wf"
+            else add (Viol ("conform:not-wf", "d4_conform accepts the file but check_wf rejects the loaded vector [" ^ show_circuit b.circuit ^ "]")))
+       end else begin
+         bump ("conform_no_" ^ cls);
+         (match impl b "panic" with
+          | None when Model.check_wf b.circuit (Conv.nat_of_int (match impl b "nvars" with Some [nv] -> int_of_string nv | _ -> n)) ->
+            bump ("nonconform_but_wf_" ^ cls)
+          | _ -> ())
+       end
+     | _ -> ());
     (* recycling experiment: never a verdict, only statistics.  recycling_happened = the graph
        built with recycling has fewer node slots than the one built without, i.e. some add_node
        took a slot from the free list *)
